@@ -407,7 +407,14 @@ class DocutilsRenderer(RendererProtocol):
             elif key == "id":
                 name = nodes.fully_normalize_name(str(value))
                 node["names"].append(name)
-                self.document.note_explicit_target(node, node)
+                # a system message (e.g. for a duplicate id) cannot be placed
+                # inside an inline, literal or image node: use its parent instead
+                msg_node = (
+                    self.current_node
+                    if isinstance(node, nodes.Inline | nodes.TextElement)
+                    else node
+                )
+                self.document.note_explicit_target(node, msg_node)
             else:
                 if key in converters:
                     try:
@@ -1442,7 +1449,8 @@ class DocutilsRenderer(RendererProtocol):
         self.add_line_and_source_path(node, token)
         name = nodes.fully_normalize_name(label)
         node["names"].append(name)
-        self.document.note_explicit_target(node, node)
+        # note: a system message (for a duplicate label) must not be placed inside the math node
+        self.document.note_explicit_target(node, self.current_node)
         self.current_node.append(node)
 
     def render_amsmath(self, token: SyntaxTreeNode) -> None:
